@@ -32,12 +32,49 @@ def flat_of(msg):
     return [pyb.values_of(msg, i) for i in range(msg.n_subsets.value)], [pyb.labels_of(msg, i) for i in range(msg.n_subsets.value)]
 
 
-def apply_request(beh, c):
+def via_command(beh, c, src):
+    """The same request through the command layer (pybufrkit.commands.command_subset, what `pybufrkit subset` runs),
+    in-process: returns the decoded result, or the name of the error class."""
+    import argparse
+    import tempfile
+    from pybufrkit import commands
+    from pybufrkit.decoder import Decoder
+    d = tempfile.mkdtemp(prefix='c10cmd', dir=os.environ.get('VERIF_WORK') or None)
+    try:
+        fin, fout = os.path.join(d, 'in.bufr'), os.path.join(d, 'out.bufr')
+        with open(fin, 'wb') as f:
+            f.write(bytes(beh['msg']))
+        ns = argparse.Namespace(definitions_directory=None, tables_root_directory=None, compiled_template_cache_max=None,
+                                subset_indices=','.join(str(i) for i in c['req']), filename=fin, output_filename=fout,
+                                ignore_value_expectation=False)
+        try:
+            commands.command_subset(ns)
+        except Exception as e:
+            return None, type(e).__name__ if not isinstance(e, __import__('pybufrkit.errors', fromlist=['x']).PyBufrKitError) else 'PyBufrKitError'
+        with open(fout, 'rb') as f:
+            return Decoder().process(f.read()), None
+    finally:
+        import shutil
+        shutil.rmtree(d, ignore_errors=True)
+
+
+def apply_request(beh, c, via='api'):
     """One (behaviour, request) pair.  Returns None or (signature, detail)."""
     from pybufrkit.decoder import Decoder
     from pybufrkit.encoder import Encoder
     from pybufrkit.errors import PyBufrKitError
     data = bytes(beh['msg'])
+    if via == 'command':
+        src = Decoder().process(data)
+        feat = 'command,' + ('cmp' if beh['cmp'] else 'unc') + (',repeat' if len(set(c['req'])) < len(c['req']) else '')
+        res, err = via_command(beh, c, src)
+        if c['refused']:
+            if err == 'PyBufrKitError':
+                return None
+            return (('subset', 'out-of-range', 'accepted' if err is None else 'error-type:' + err, feat), 'command layer: request %r on %d subsets: %s' % (c['req'], c['n'], err or 'accepted'))
+        if err is not None:
+            return (('subset', 'refused-valid', err, feat), 'command layer: request %r on %d subsets raised %s' % (c['req'], c['n'], err))
+        return compare_result(beh, c, src, res, feat)
     try:
         src = Decoder().process(data)
     except Exception as e:
@@ -72,6 +109,10 @@ def apply_request(beh, c):
         return (('subset', 'encode-result', type(e).__name__, feat), 'encoding / decoding the result of request %r raised %r' % (c['req'], e))
     if flat_of(src) != before:
         return (('subset', 'source', 'modified', feat), 'the source message changed')
+    return compare_result(beh, c, src, res, feat)
+
+
+def compare_result(beh, c, src, res, feat):
     if res.n_subsets.value != len(c['selected']):
         return (('subset', 'count', 'differs', feat), 'request %r: %d subsets, specification %d' % (c['req'], res.n_subsets.value, len(c['selected'])))
     if res.is_compressed.value != src.is_compressed.value:
@@ -97,8 +138,9 @@ def apply_request(beh, c):
 
 
 def _work(args):
-    beh, cs = args
-    return [apply_request(beh, c) for c in cs]
+    beh, cs = args[0], args[1]
+    via = args[2] if len(args) > 2 else 'api'
+    return [apply_request(beh, c, via) for c in cs]
 
 
 def cli_subset(run, wd, pairs):
@@ -221,10 +263,14 @@ def run(run):
             for i, b in enumerate(behs):
                 jobs.append((b, rs[(i * 7 + r) % len(rs)::max(1, len(rs) // 6)]))
             if behs:
+                # EVERY request of the bounded space through the command layer (in-process), on two messages per n
+                for b in (behs[r % len(behs)], behs[(r + len(behs) // 2) % len(behs)]):
+                    jobs.append((b, rs, 'command'))
                 cli_pairs += [(behs[(r + k) % len(behs)], rs[(r * 3 + k * 5) % len(rs)]) for k in range(3 if thorough else 1)]
         with mp.get_context('fork').Pool(14, initializer=fm94._init_worker) as pool:
             outs = pool.map(_work, jobs)
-        for (beh, cs), out in zip(jobs, outs):
+        for job, out in zip(jobs, outs):
+            beh, cs = job[0], job[1]
             for c, bad in zip(cs, out):
                 run.traces += 1
                 run.nontriv((tuple(beh['ids']), beh['cmp'], beh['nsub'], tuple(c['req'])))
